@@ -168,6 +168,8 @@ def check(col, url, opts, extra_kwargs=None):
         for k, v in items_in:
             if k in [s.encode() for s in SAFE_KEYS] and (k, v) not in items_out and not (k == b"q" and False):
                 col.violation("relevant-query-item-kept", FN, inp, {"result": res, "missing": repr((k, v))}, "kept")
+            if not opts["normalize_amp"] and re.match(br"^amp(_.+)?$", k, re.I) and (k, v) not in items_out:
+                col.violation("option-off:normalize_amp-keeps-amp-items", FN, inp, {"result": res, "missing": repr((k, v))}, "kept")
     # ---- fragment
     col.count("fragment")
     fin, fout = din["fragment"], dout["fragment"]
@@ -269,13 +271,26 @@ TARGET = {"sort_query": "query-order", "strip_authentication": ("user", "passwor
 
 
 def shard(job):
-    tier, seed, urls = job
+    tier, seed, urls = job[:3]
+    reverse = len(job) > 3 and job[3]
     col = Collector("C05", tier, seed)
     rnd = random.Random(seed)
     sets = option_sets(tier, rnd)
+    if reverse:
+        # same (url, options) pairs, visited in the opposite order in a fresh process: results must not depend on call history
+        seen = {}
+        for u in reversed(urls):
+            for o in reversed(sets):
+                r = call(normalize_url, u, **o)
+                seen[(u, repr(sorted(o.items(), key=str)))] = repr(r)
+        p = col.partial()
+        p["results"] = [[k[0], k[1], v] for k, v in seen.items()]
+        return p
+    firsts = {}
     for u in urls:
         outs = {}
         for i, o in enumerate(sets):
+            firsts[(u, repr(sorted(o.items(), key=str)))] = repr(call(normalize_url, u, **o))
             for extra in (None, {"quoted": True}, {"platform_aware": True}) if i < 3 else (None,):
                 d = check(col, u, o, extra)
                 if extra is None and i <= len(BOOL_OPTS) + 2:
@@ -300,7 +315,9 @@ def shard(job):
                 if a != b:
                     col.violation("option-changes-nothing-else", FN, {"url": u, "flipped_option": nm, "component": comp},
                                   {"default": repr(base[comp]), "flipped": repr(d[comp])}, "equal")
-    return col.partial()
+    p = col.partial()
+    p["results"] = [[k[0], k[1], v] for k, v in firsts.items()]
+    return p
 
 
 def main():
@@ -337,8 +354,21 @@ def main():
                                path="/" + parts["path"] if "path" in parts else "", query=parts.get("query"), fragment=parts.get("fragment")))
     n = a.jobs * 2
     jobs = [(a.tier, a.seed, urls[i::n]) for i in range(n)]
-    for part in run_sharded(shard, jobs, a.jobs):
+    hist_urls = [u for u in urls if "amp" in u.lower() or "index" in u or "www" in u][:160] + urls[:40]
+    jobs += [(a.tier, a.seed, hist_urls, False), (a.tier, a.seed, hist_urls, True)]
+    fwd, rev = None, None
+    for job, part in zip(jobs, run_sharded(shard, jobs, a.jobs)):
         col.merge(part)
+        if job[2] is hist_urls:
+            if len(job) > 3 and job[3]:
+                rev = dict(((x[0], x[1]), x[2]) for x in part["results"])
+            else:
+                fwd = dict(((x[0], x[1]), x[2]) for x in part["results"])
+    for k in fwd:
+        col.count("independent-of-call-history")
+        if k in rev and rev[k] != fwd[k]:
+            col.violation("result-independent-of-call-history", FN, {"url": k[0], "options": k[1]},
+                          {"first pass (defaults first)": fwd[k], "fresh process, reverse order": rev[k]}, "equal")
     col.sample({"url": "http://forum-m.example.com/a/index.html?id=1&utm_source=x#/route", "options": "defaults, every single-option flip, all-off, random combinations"})
     col.sample({"url": "http://a.com:99999/", "expected": "returned unchanged"})
     col.exhaustive = False
